@@ -102,9 +102,10 @@ Theorem C04_gfq_unsigned_source : forall q, 2 <= q -> forall b T x,
   sg T = false -> 32 <= bits T -> 0 <= x -> gf_init b q (SI T) x = Some (x mod q).
 Proof. exact gf_init_unsigned_correct. Qed.
 Print Assumptions C04_gfq_unsigned_source.
-Theorem C04_gfq_int64_min_refuted : exists q x, 2 <= q /\ in_range i64 x /\ gf_init 64 q (SI i64) x = None.
-Proof. exact gf_init_type_min_refuted. Qed.
-Print Assumptions C04_gfq_int64_min_refuted.
+Theorem C04_gfq_signed_source_all_values_incl_type_min : forall q, 2 <= q -> forall b T x,
+  sg T = true -> 0 < bits T <= 64 -> q <= 2 ^ 62 -> in_range T x -> gf_init b q (SI T) x = Some (x mod q).
+Proof. exact gf_init_signed_correct. Qed.
+Print Assumptions C04_gfq_signed_source_all_values_incl_type_min.
 Theorem C04_log16_int64_source_every_value : forall p a, 2 <= p < 2 ^ 15 -> in_range i64 a -> lg_init_i64 p a = Some (a mod p).
 Proof. exact lg_init_i64_correct. Qed.
 Print Assumptions C04_log16_int64_source_every_value.
